@@ -1042,7 +1042,9 @@ fn run_typed<R: Raw>(scn: &Scenario, opts: &RunOpts) -> Outcome {
         // where that does not make the run depend on OS entropy (the interrupted call had taken
         // the seeded generator): a PRM whose roadmap is still empty would sample again.
         if matches!(res, Res::UserPanic) {
-            let keep = matches!(&planner, AnyPlanner::Prm(_)) && matches!(guarded(|| planner.snapshot()), Ok(Snap::Prm(ref rm)) if !rm.is_empty());
+            // (`panic_resume` scenarios are built so that nothing depends on the planner's
+            // generator: scripted samples, goal bias exactly 0 or 1)
+            let keep = scn.param("panic_resume") == Some(1.0) || (matches!(&planner, AnyPlanner::Prm(_)) && matches!(guarded(|| planner.snapshot()), Ok(Snap::Prm(ref rm)) if !rm.is_empty()));
             if !keep {
                 dead = true;
             }
